@@ -570,10 +570,9 @@ func PreprocessDeclarationsPrelude(baseURL string, declarations []pa.Compound, p
 
 	// Yield declarations.
 	is := pa.NewFunctionBlock(pos11, "is", prelude)
-	var (
-		out      []KeyedDeclarations
-		ownDecls []Declaration
-	)
+	// the rule's own declarations come before the ones of its nested rules
+	out := []KeyedDeclarations{{Selector: selectors}}
+	var ownDecls []Declaration
 	for _, declaration := range declarations {
 		if errToken, ok := declaration.(pa.ParseError); ok {
 			logger.WarningLogger.Printf("Error: %s \n", errToken.Message)
@@ -686,7 +685,7 @@ func PreprocessDeclarationsPrelude(baseURL string, declarations []pa.Compound, p
 		}
 	}
 
-	out = append(out, KeyedDeclarations{selectors, ownDecls})
+	out[0].Declarations = ownDecls
 
 	return out, nil
 }
